@@ -2,6 +2,7 @@
 From Coq Require Import ZArith List Bool Arith.
 From PlonkV Require Import Base.Fr Base.FrFacts Gates.Gate Gates.CS Gates.CSFacts
   Composer.State Composer.Components Curve.Jubjub Curve.JubjubFacts Composer.PointComponents Composer.PointFacts.
+From PlonkV Require Import Curve.Assoc Curve.GroupLaw Composer.GroupCorollaries.
 Import ListNotations.
 Local Open Scope fr_scope.
 
@@ -77,3 +78,40 @@ Check C13_torsion_in_system : forall (PR : PrimeR) (ND : NonSquareD) pre post as
   let Q := (asg n, asg (S n)) in
   on_curve Q /\ (asg (fst point), asg (snd point)) = ed_double (ed_double (ed_double Q)).
 Print Assumptions C13_torsion_in_system.
+
+(* ---- with the group law ---- *)
+(* satisfaction forces point = [8] Q for an on-curve Q *)
+Theorem C13_torsion_multiple_of_8 : forall (PR : PrimeR) (ND : NonSquareD) asg point n,
+  block_sat (torsion_rows point n) asg ->
+  let Q := (asg n, asg (S n)) in
+  on_curve Q /\ (asg (fst point), asg (snd point)) = zsmul 8 Q.
+Proof. exact @torsion_sound_multiple. Qed.
+Check C13_torsion_multiple_of_8 : forall (PR : PrimeR) (ND : NonSquareD) asg point n,
+  block_sat (torsion_rows point n) asg ->
+  let Q := (asg n, asg (S n)) in
+  on_curve Q /\ (asg (fst point), asg (snd point)) = zsmul 8 Q.
+Print Assumptions C13_torsion_multiple_of_8.
+
+(* completeness at the subgroup: for every on-curve P with [rj] P = O the auxiliary
+   point the gadget computes ([8^-1 mod rj] P) is on the curve and [8] of it is P *)
+Theorem C13_honest_witness : forall (PR : PrimeR) (ND : NonSquareD) p,
+  on_curve p -> zsmul rj p = ed_id ->
+  on_curve (honest_q p) /\ ed_double (ed_double (ed_double (honest_q p))) = p.
+Proof. exact @honest_q_works. Qed.
+Check C13_honest_witness : forall (PR : PrimeR) (ND : NonSquareD) p,
+  on_curve p -> zsmul rj p = ed_id ->
+  on_curve (honest_q p) /\ ed_double (ed_double (ed_double (honest_q p))) = p.
+Print Assumptions C13_honest_witness.
+
+(* partial: GIVEN the order of the curve group (8 * rj, a premise: point counting is not
+   mechanised) every accepted point lies in the prime-order subgroup *)
+Theorem C13_subgroup_given_curve_order_partial : forall (PR : PrimeR) (ND : NonSquareD) asg point n,
+  (forall q, on_curve q -> zsmul (8 * rj) q = ed_id) ->
+  block_sat (torsion_rows point n) asg ->
+  zsmul rj (asg (fst point), asg (snd point)) = ed_id.
+Proof. exact @torsion_sound_subgroup_assuming_order. Qed.
+Check C13_subgroup_given_curve_order_partial : forall (PR : PrimeR) (ND : NonSquareD) asg point n,
+  (forall q, on_curve q -> zsmul (8 * rj) q = ed_id) ->
+  block_sat (torsion_rows point n) asg ->
+  zsmul rj (asg (fst point), asg (snd point)) = ed_id.
+Print Assumptions C13_subgroup_given_curve_order_partial.
